@@ -466,7 +466,7 @@ fn replay(beh: &Value, line: usize, m: &Map, rep: &mut Report, observe: &str) {
                         && cmp_state(&est, &d.value.state.map(|v| Datum::new(tt, v)), m, mag)
                         && cmp_cmd(&ecm, &d.value.command.map(|v| Datum::new(tt, v)), m, mag)
                 }
-                _ => false,
+                _ => mag >= 1e299,      // timestamps-only mode: presence is not C03's business
             };
             if ob_data && !ok {
                 let g = gd.map(|d| json!({"t_ns": d.time.0, "inner_t_ns": d.value.time.0, "has_cmd": d.value.command.is_some(), "has_state": d.value.state.is_some(),
